@@ -136,15 +136,31 @@ func (x *XmlNode) field(m meta.Leafable) (string, bool) {
 // leafText is the value of a leaf element. White space is part of a string value, for all
 // other types white space around the value is not significant.
 func (x *XmlNode) leafText(m meta.Leafable) string {
-	t := m.Type()
+	if holdsText(m.Type(), 0) {
+		return string(x.Content)
+	}
+	return x.ContentTrim()
+}
+
+// holdsText is true for a type that has string values, also as the member of a union
+func holdsText(t *meta.Type, depth int) bool {
 	// a leafref holds values of the type of the leaf it points at (a chain of them ends at one that resolves to itself)
 	for i := 0; i < 16 && t.Format().Single() == val.FmtLeafRef && t.Resolve() != t; i++ {
 		t = t.Resolve()
 	}
-	if t.Format().Single() == val.FmtString {
-		return string(x.Content)
+	switch t.Format().Single() {
+	case val.FmtString:
+		return true
+	case val.FmtUnion:
+		if depth < 16 {
+			for _, member := range t.Union() {
+				if holdsText(member, depth+1) {
+					return true
+				}
+			}
+		}
 	}
-	return x.ContentTrim()
+	return false
 }
 
 func (x *XmlNode) Field(r node.FieldRequest, hnd *node.ValueHandle) error {
